@@ -12,8 +12,10 @@ this file models how the record comes about, following each `With…` function o
   switches the setting off again;
 * flags are only ever set (`WithExpectAbsent`, `WithCreateIfAbsent`, `WithGenIDIfAbsent`,
   `WithAllFieldsWritable`);
-* `WithMoreUpdateMask(m)` unites `m` into the update mask in force AT THAT POINT of the list and does
-  nothing when there is none (`nil` = everything is updated anyway);
+* `WithMoreUpdateMask(m)` adds the paths of `m`, as given, to the update mask in force AT THAT POINT of
+  the list (no normalisation since repo 5cc1d68: `{f}` extended by `{f.unknown}` keeps both paths and is
+  rejected as invalid) and does nothing when there is none (`nil` = everything is updated anyway);
+  `cat` is "a mask holding the paths of the first followed by the paths of the second";
 * `WithMoreWritableFields(m)` unites `m` into the request's additional writable fields
   (`fieldmaskpb.Union(nil, m)` for the first one).
 
@@ -45,13 +47,13 @@ inductive WOpt (M K : Type)
   | empty
 
 /-- `opt.apply(req)` for one write option. -/
-def applyW (ops : MsgOps M K) (wr : WriteReq M K) : WOpt M K → WriteReq M K
+def applyW (ops : MsgOps M K) (cat : K → K → K) (wr : WriteReq M K) : WOpt M K → WriteReq M K
   | .writeTime t => { wr with writeTime := some t }
   | .updateMask m => { wr with updateMask := m }
   | .moreUpdateMask m =>
     match wr.updateMask with
     | none => wr  -- a nil update mask means all fields are writable anyway
-    | some u => { wr with updateMask := some (ops.union u (some m)) }
+    | some u => { wr with updateMask := some (cat u m) }  -- the paths of both, as given
   | .resetMask m => { wr with resetMask := m }
   | .expectedValue v => { wr with expectedValue := v }
   | .expectAbsent => { wr with expectAbsent := true }
@@ -71,8 +73,8 @@ def applyW (ops : MsgOps M K) (wr : WriteReq M K) : WOpt M K → WriteReq M K
   | .empty => wr
 
 /-- `ComputeWriteConfig(opts...)` -/
-def computeWriteConfig (ops : MsgOps M K) (opts : List (WOpt M K)) : WriteReq M K :=
-  opts.foldl (applyW ops) {}
+def computeWriteConfig (ops : MsgOps M K) (cat : K → K → K) (opts : List (WOpt M K)) : WriteReq M K :=
+  opts.foldl (applyW ops cat) {}
 
 /-- `resource.ReadOption` values; `other` stands for the options that do not concern Get/List
 (`WithUpdatesOnly`, `WithBackpressure`, `EmptyReadOption`). -/
@@ -91,19 +93,19 @@ def computeReadConfig (opts : List (ROpt M K)) : ReadReq M K := opts.foldl apply
 
 /-! ## The calls, on option lists -/
 
-def Coll.updateO (cfg : Cfg M K R) (s : CState M R) (id : String) (msg : M) (opts : List (WOpt M K)) :
+def Coll.updateO (cat : K → K → K) (cfg : Cfg M K R) (s : CState M R) (id : String) (msg : M) (opts : List (WOpt M K)) :
     COut M × CState M R :=
-  Coll.update cfg s id msg (computeWriteConfig cfg.ops opts)
+  Coll.update cfg s id msg (computeWriteConfig cfg.ops cat opts)
 
 /-- `Collection.Add`: `opts = append([]WriteOption{WithExpectAbsent(), WithCreateIfAbsent()}, opts...)`,
 then `Update`. -/
-def Coll.addO (cfg : Cfg M K R) (s : CState M R) (id : String) (msg : M) (opts : List (WOpt M K)) :
+def Coll.addO (cat : K → K → K) (cfg : Cfg M K R) (s : CState M R) (id : String) (msg : M) (opts : List (WOpt M K)) :
     COut M × CState M R :=
-  Coll.updateO cfg s id msg (.expectAbsent :: .createIfAbsent :: opts)
+  Coll.updateO cat cfg s id msg (.expectAbsent :: .createIfAbsent :: opts)
 
-def Coll.deleteO (cfg : Cfg M K R) (s : CState M R) (id : String) (opts : List (WOpt M K)) :
+def Coll.deleteO (cat : K → K → K) (cfg : Cfg M K R) (s : CState M R) (id : String) (opts : List (WOpt M K)) :
     COut M × CState M R :=
-  Coll.delete cfg s id (computeWriteConfig cfg.ops opts)
+  Coll.delete cfg s id (computeWriteConfig cfg.ops cat opts)
 
 def Coll.getO (cfg : Cfg M K R) (s : CState M R) (id : String) (opts : List (ROpt M K)) : Option M :=
   Coll.get cfg s id (computeReadConfig opts)
@@ -114,8 +116,8 @@ def Coll.listIdsO (cfg : Cfg M K R) (s : CState M R) (opts : List (ROpt M K)) : 
 def Coll.listO (cfg : Cfg M K R) (s : CState M R) (opts : List (ROpt M K)) : List M :=
   Coll.list cfg s (computeReadConfig opts)
 
-def Value.setO (cfg : Cfg M K R) (s : VState M) (msg : M) (opts : List (WOpt M K)) : VOut M × VState M :=
-  Value.set cfg s msg (computeWriteConfig cfg.ops opts)
+def Value.setO (cat : K → K → K) (cfg : Cfg M K R) (s : VState M) (msg : M) (opts : List (WOpt M K)) : VOut M × VState M :=
+  Value.set cfg s msg (computeWriteConfig cfg.ops cat opts)
 
 def Value.getO (cfg : Cfg M K R) (s : VState M) (opts : List (ROpt M K)) : Option M :=
   Value.get cfg s (computeReadConfig opts)
@@ -128,18 +130,18 @@ inductive COpO (M K : Type)
   | add (id : String) (msg : M) (opts : List (WOpt M K))
   | delete (id : String) (opts : List (WOpt M K))
 
-def Coll.stepO (cfg : Cfg M K R) (s : CState M R) : COpO M K → CRes M × CState M R
+def Coll.stepO (cat : K → K → K) (cfg : Cfg M K R) (s : CState M R) : COpO M K → CRes M × CState M R
   | .get id opts => (.got (Coll.getO cfg s id opts), s)
   | .list opts => (.listed (Coll.listIdsO cfg s opts), s)
-  | .update id msg opts => let (o, s') := Coll.updateO cfg s id msg opts; (.wrote o, s')
-  | .add id msg opts => let (o, s') := Coll.addO cfg s id msg opts; (.wrote o, s')
-  | .delete id opts => let (o, s') := Coll.deleteO cfg s id opts; (.wrote o, s')
+  | .update id msg opts => let (o, s') := Coll.updateO cat cfg s id msg opts; (.wrote o, s')
+  | .add id msg opts => let (o, s') := Coll.addO cat cfg s id msg opts; (.wrote o, s')
+  | .delete id opts => let (o, s') := Coll.deleteO cat cfg s id opts; (.wrote o, s')
 
-def Coll.runO (cfg : Cfg M K R) : CState M R → List (COpO M K) → List (CRes M) × CState M R
+def Coll.runO (cat : K → K → K) (cfg : Cfg M K R) : CState M R → List (COpO M K) → List (CRes M) × CState M R
   | s, [] => ([], s)
   | s, op :: ops =>
-    let (r, s1) := Coll.stepO cfg s op
-    let (rs, s2) := Coll.runO cfg s1 ops
+    let (r, s1) := Coll.stepO cat cfg s op
+    let (rs, s2) := Coll.runO cat cfg s1 ops
     (r :: rs, s2)
 
 /-- A Value call with its option list. -/
@@ -147,27 +149,27 @@ inductive VOpO (M K : Type)
   | get (opts : List (ROpt M K))
   | set (msg : M) (opts : List (WOpt M K))
 
-def Value.stepO (cfg : Cfg M K R) (s : VState M) : VOpO M K → VRes M × VState M
+def Value.stepO (cat : K → K → K) (cfg : Cfg M K R) (s : VState M) : VOpO M K → VRes M × VState M
   | .get opts => (.got (Value.getO cfg s opts), s)
-  | .set msg opts => let (o, s') := Value.setO cfg s msg opts; (.wrote o, s')
+  | .set msg opts => let (o, s') := Value.setO cat cfg s msg opts; (.wrote o, s')
 
-def Value.runO (cfg : Cfg M K R) : VState M → List (VOpO M K) → List (VRes M) × VState M
+def Value.runO (cat : K → K → K) (cfg : Cfg M K R) : VState M → List (VOpO M K) → List (VRes M) × VState M
   | s, [] => ([], s)
   | s, op :: ops =>
-    let (r, s1) := Value.stepO cfg s op
-    let (rs, s2) := Value.runO cfg s1 ops
+    let (r, s1) := Value.stepO cat cfg s op
+    let (rs, s2) := Value.runO cat cfg s1 ops
     (r :: rs, s2)
 
-def compileVOp (ops : MsgOps M K) : VOpO M K → VOp M K
+def compileVOp (ops : MsgOps M K) (cat : K → K → K) : VOpO M K → VOp M K
   | .get opts => .get (computeReadConfig opts)
-  | .set msg opts => .set msg (computeWriteConfig ops opts)
+  | .set msg opts => .set msg (computeWriteConfig ops cat opts)
 
 /-- The call on the request RECORD that a call on an option list amounts to. -/
-def compileOp (ops : MsgOps M K) : COpO M K → COp M K
+def compileOp (ops : MsgOps M K) (cat : K → K → K) : COpO M K → COp M K
   | .get id opts => .get id (computeReadConfig opts)
   | .list opts => .list (computeReadConfig opts)
-  | .update id msg opts => .update id msg (computeWriteConfig ops opts)
-  | .add id msg opts => .add id msg (computeWriteConfig ops opts)
-  | .delete id opts => .delete id (computeWriteConfig ops opts)
+  | .update id msg opts => .update id msg (computeWriteConfig ops cat opts)
+  | .add id msg opts => .add id msg (computeWriteConfig ops cat opts)
+  | .delete id opts => .delete id (computeWriteConfig ops cat opts)
 
 end ScVerif.C01
